@@ -61,7 +61,9 @@ func runC13(c *hx.Ctx) {
 		handover(o, c, w)
 	}
 	cleanTakeover(o, c)
+	retainedWillTakeover(o, c)
 	takeoverChainUnderTraffic(o, c)
+	killTimeoutThenConnect(o, c)
 	blockedTakeover(o, c)
 }
 
@@ -86,7 +88,11 @@ func willSeen(w *peer, topic string) int {
 
 // k simultaneous attempts with the id of a live persistent session, clean and unclean mixed
 func simultaneousAttempts(o *out, c *hx.Ctx, r, k int, oldState string) {
-	sc := o.begin(c, fmt.Sprintf("c13 round=%d attempts=%d old=%s", r, k, oldState), 3, 100)
+	w, q := 3, 100
+	if r%2 == 1 {
+		w, q = 0, 0 // the library's defaults (window 10, queue 100)
+	}
+	sc := o.begin(c, fmt.Sprintf("c13 round=%d attempts=%d old=%s window=%d queue=%d", r, k, oldState, w, q), w, q)
 	defer sc.end()
 	// the old connection with a persistent session, a subscription and an unacknowledged delivery
 	old := sc.dial("old", false)
@@ -709,6 +715,84 @@ func takeoverChainUnderTraffic(o *out, c *hx.Ctx) {
 	sc.direct("qos2_not_twice_new", len(twice) == 0, fmt.Sprintf("QoS 2 messages offered twice as a new delivery across the chain: %v", twice))
 	open, names := openOnes(conns)
 	sc.direct("exactly_one", open == 1 && cur.isOpen(), fmt.Sprintf("open connections with the id after the chain: %v", names))
+}
+
+// retainedWillTakeover: the displaced connection's will is retained and QoS 1; a persistent subscriber that is offline at that
+// moment finds it in its queue (once), a subscriber that comes later gets it replayed as a retained message (once)
+func retainedWillTakeover(o *out, c *hx.Ctx) {
+	sc := o.begin(c, "c13 retained QoS 1 will of a displaced connection: offline persistent subscriber, later subscriber", 3, 100)
+	defer sc.end()
+	b := sc.s.backend
+	off := sc.dial("offline", true)
+	off.connect("rw-off", false, nil)
+	off.subscribe(1, "will/#", 1)
+	off.send(&packet.Disconnect{})
+	off.isClosed(long)
+	waitFor(long, func() bool { c := b.nth("rw-off", 1); return c != nil && closedNow(c) })
+	old := sc.dial("old", true)
+	old.connect("rw", false, &packet.Message{Topic: "will/rw", Payload: []byte("gone"), QOS: 1, Retain: true})
+	np := sc.dial("new", true)
+	ack := np.connect("rw", false, nil)
+	closed := old.isClosed(long)
+	back := sc.dial("offline2", true)
+	back.connect("rw-off", false, nil)
+	waitFor(long, func() bool { return back.countTopic("will/rw") >= 1 })
+	later := sc.dial("later", true)
+	later.connect("rw-later", true, nil)
+	later.subscribe(1, "will/#", 1)
+	waitFor(long, func() bool { return later.countTopic("will/rw") >= 1 })
+	time.Sleep(absence)
+	retained := false
+	for _, m := range later.received() {
+		if m.Message.Topic == "will/rw" && m.Message.Retain {
+			retained = true
+		}
+	}
+	sc.direct("will_once", ack != nil && closed && back.countTopic("will/rw") == 1 && later.countTopic("will/rw") == 1 && retained,
+		fmt.Sprintf("newcomer acknowledged=%v, old closed=%v; retained QoS 1 will of the displaced connection: delivered %d time(s) to the persistent subscriber that was offline, replayed %d time(s) (retain flag=%v) to a later subscriber",
+			ack != nil, closed, back.countTopic("will/rw"), later.countTopic("will/rw"), retained))
+}
+
+// killTimeoutThenConnect: the other way into the open known finding KF-C13-blocked-write, without a blocked write.  The displaced
+// connection does not get through its cleanup within the kill timeout (its Terminate is held back here; a will that waits for
+// room at a stalled subscriber does the same): the newcomer's Setup fails with ErrKillTimeout, and the Terminate of that failed
+// newcomer removes the client-id entry of the connection it failed to displace (MemoryBackend.Terminate deletes by id).  The
+// next connection with the id then finds nobody to displace; when the held-back Terminate finally runs it removes THAT
+// connection's entry, and one more CONNECT yields two live connections with one id (C13_unique_state_kill_timeout_refuted).
+// Reported under the clause of the open finding.
+func killTimeoutThenConnect(o *out, c *hx.Ctx) {
+	n := o.scn("c13 kill timeout without a blocked write, then further connections with the id (known finding, second witness)")
+	s := startSys(3, 100)
+	s.backend.KillTimeout = 300 * time.Millisecond
+	b := s.backend
+	relA := b.holdTerminate("kt", 1)
+	dial := func(name string) *peer { p, _ := dialPeer(name, s.port, true); return p }
+	a := dial("A")
+	a.connect("kt", true, nil)
+	pB := dial("B")
+	ackB := pB.connect("kt", true, nil) // closes A, waits 300 ms for it, fails
+	refusedB := ackB == nil && pB.isClosed(long)
+	waitFor(long, func() bool { return b.termEntered("kt", 2) && closedNow(b.nth("kt", 2)) })
+	pC := dial("C")
+	ackC := pC.connect("kt", true, nil)
+	relA() // A's cleanup gets through at last
+	waitFor(long, func() bool { return closedNow(b.nth("kt", 1)) })
+	pD := dial("D")
+	ackD := pD.connect("kt", true, nil)
+	time.Sleep(absence)
+	all := []*peer{a, pB, pC, pD}
+	waitFor(3*time.Second, func() bool { k, _ := openOnes(all); return k <= 1 }) // (waited out on the current tree: two stay open)
+	open, names := openOnes(all)
+	o.direct("takeover_blocked_in_write", n, open <= 1,
+		fmt.Sprintf("kill timeout reached with the displaced connection's Terminate held back (the situation of an old connection blocked in a carrier write, reached without one): newcomer refused=%v; "+
+			"next connection acknowledged=%v; after the held-back Terminate ran, a further connection acknowledged=%v; live connections with the one client id: %v (at most one expected)", refusedB, ackC != nil, ackD != nil, names))
+	for _, p := range all {
+		p.close()
+	}
+	bad := b.lifecycle(long)
+	o.direct("lifecycle", n, len(bad) == 0, joinLines(bad))
+	s.stop()
+	o.syslog(n, s)
 }
 
 // the witness of the open known finding: the displaced connection is blocked in a carrier
